@@ -48,9 +48,10 @@ template <class T, class S> size_t lu_factorize(matrix<T> &A, permutation_matrix
     size_t n = A.size1();
     for (size_t c = 0; c < n; c++) {
         size_t p = c; for (size_t r = c + 1; r < n; r++) if (fabs(A(r, c)) > fabs(A(p, c))) p = r;
-        pm.p[c] = (S)p;
         if (A(p, c) == 0.0) return c + 1;
-        if (p != c) for (size_t j = 0; j < n; j++) std::swap(A(p, j), A(c, j));
+        // as uBLAS: pm(c) is WRITTEN only when a row swap happens; otherwise it is expected to hold c already (uBLAS only asserts that
+        // in debug builds) -- the caller must hand in a fresh (identity) permutation
+        if (p != c) { pm.p[c] = (S)p; for (size_t j = 0; j < n; j++) std::swap(A(p, j), A(c, j)); }
         for (size_t r = c + 1; r < n; r++) { A(r, c) /= A(c, c); for (size_t j = c + 1; j < n; j++) A(r, j) -= A(r, c) * A(c, j); }
     }
     return 0;
